@@ -1,7 +1,7 @@
 """C18 — year-months and month-days are canonical and count whole months (structural clauses)."""
 from ._std import *
 from ..rules import wiring, units
-from ..rules.common import hir_walk, node_line, OPT, fold
+from ..rules.common import tri, hir_walk, node_line, OPT, fold
 from . import c10
 
 EXPLANATION = (
@@ -95,8 +95,8 @@ def main(tier):
                              (275760, 9): True, (275760, 10): False, (275761, 1): False, (0, 1): True, (275760, 1): True,
                              (-271821, 1): False}.items():
             got = fold(ev, yl, [y, m])
-            run.check(got == ("val", want), rule, "%d-%02d" % (y, m), "%s" % (got,),
-                      "year_month_within_limits(%d, %d) = %s, expected %s" % (y, m, got, want), yl.loc)
+            tri(run, rule, "%d-%02d" % (y, m), got, got == ("val", want), "%s" % (got,),
+                "year_month_within_limits(%d, %d) = %s, expected %s" % (y, m, got, want), yl.loc)
     # from_str: ISO only, canonicalising constructor
     rule = "R11.from-str-canonical"
     run.rule(rule, "PlainYearMonth::from_str / PlainMonthDay::from_str reject non-ISO calendars with a RangeError and "
@@ -114,6 +114,14 @@ def main(tier):
         leaves = result_leaves(fx, f)
         succ = [l for l in leaves if l[0] in ("call", "value")]
         bad = [l[1] for l in succ if not (l[0] == "call" and l[1].endswith(leafname))]
+        if bad and all("IsoDate::new_with_overflow(1972" in b or "IsoDate::regulate(1972" in b or
+                       ("new_with_overflow(" in b and ", 1, " in b) for b in bad):
+            # the canonicalising constructor was folded into a helper: the value is still built on the constant reference
+            bad = []
+        elif bad and not any(leafname.rsplit("::", 1)[-1] in b or "new_unchecked" in b for b in bad):
+            run.ok(rule, ty.rsplit("::", 1)[-1], "the success value is built by `%s`, which this rule does not recognise: not decided"
+                   % bad[0][:80], f.loc, nontrivial=False)
+            continue
         # decisions are recorded on the positive atom `is_iso(..)` whatever polarity the source tests
         guarded = all(any("is_iso" in c and ch is True for c, ch in l[2]) for l in succ)
         nonisoerr = {l[1] for l in leaves if l[0] == "err" and any("is_iso" in c and ch is False for c, ch in l[2])}
